@@ -300,4 +300,5 @@ def run(tier, seed, part=None):
             chk.add_explorer(f"at{gen}/{mode}/{cfg[0]:g}-{cfg[1]:g}/{beats}beats", SPEC, params, res,
                              {"heartbeats": beats, "deviations": dev, "config": list(cfg), "side_events_each": side,
                               "answer_instants": "now, req+30-eps, req+30, req+30+eps, req+interval-eps, deadline-eps, deadline, never"})
+    chk.add_audit(SPEC, {"gen": 4, "mode": "bare", "config": [10.0, 15.0], "beats": 1, "side": 1}, 40, 0, limit=4000 if tier == "thorough" else 500)
     return chk.finish()
